@@ -11,4 +11,5 @@ Extraction "model.ml" nl_run prettier_run pretty_spec nl_spec chomp
   readlines_file readlines_stdin program_records
   disk_create disk_add disk_list disk_extract load_image save_image set_payload
   sides_of_raw side_geometry fsck_read fsck_strict dos_files fat count_status st_free st_reserved sd_slot_ok doc_disk_kind cat_entries e_live
+  find_sub slice splice rstrip_py strip_py upper_ascii dec undec take_digits basename dirname path_join is_space_py ljust
   tar_main disk_main cli_status cli_effects parse tar_cli disk_cli nl_cli prettier_cli lst2bas_cli bas2lst_cli.
